@@ -5,7 +5,8 @@
    capacities, any peer input, with or without each pump.  Only statements here; the
    proofs are in InvA.v / Proofs.v / Refute.v. *)
 From Coq Require Import ZArith List Bool Arith Lia.
-From FV Require Import C03.Model C03.Base C03.InvA C03.Proofs C03.Refute.
+From Coq Require Import Permutation.
+From FV Require Import C03.Model C03.Base C03.InvA C03.Proofs C03.Refute C03.Accepted.
 Import ListNotations.
 
 (* "reaches the peer exactly once and in acceptance order, whatever the outbound queue size,
@@ -17,6 +18,14 @@ Theorem c03_fifo_once : forall oc kc ic ec en hw hr sds cls input inq0 errq0 cs,
   (NoDup (map pid (accepted s)) -> NoDup (map pid (wire s))).
 Proof. exact fifo_once. Qed.
 Print Assumptions c03_fifo_once.
+
+(* what "accepted" means: at every reachable state the ids in the ghost sequence [accepted] are
+   exactly (as a multiset) the ids of the packets whose SendPacket call answered nil *)
+Theorem c03_accepted_is_answered_nil : forall oc kc ic ec en hw hr sds cls input inq0 errq0 cs,
+  let s := run repaired (init oc kc ic ec en hw hr sds cls input inq0 errq0) cs in
+  Permutation (map pid (accepted s)) (all_ok (senders s)).
+Proof. exact accepted_is_answered_nil. Qed.
+Print Assumptions c03_accepted_is_answered_nil.
 
 (* "the graceful close returns only after those packets are on the wire and then ends the
    write side, so the peer sees end-of-stream right after the last of them": when a Close()
